@@ -154,6 +154,8 @@ def render_v2(case, d, cols, outname, native_time=False):
         c["release"].update(continuous=True, release_frequency=[20, "m"])
     if case["ibmvar"]:
         c["ibm"] = dict(module=drive.plug("sibm.py"), **ibm_options(case))
+    elif case["column"] == "int":  # an IBM that declares no variables of its own (it only removes a particle)
+        c["ibm"] = dict(module=drive.plug("sibm.py"), kills={"1": [0]})
     elif case["optional"] in ("empty", "blank"):
         c["ibm"] = {}
     if case["optional"] in ("empty", "blank"):
@@ -204,6 +206,8 @@ def render_v1(case, d, cols, outname):
     c["particle_release"] = pr
     if case["ibmvar"]:
         c["ibm"] = dict(ibm_module=drive.plug("sibm.py"), variables=["age"], **ibm_options(case))
+    elif case["column"] == "int":
+        c["ibm"] = dict(ibm_module=drive.plug("sibm.py"), kills={"1": [0]})
     inst = ["pid", "X", "Y", "Z"] + (["age"] if case["ibmvar"] else [])
     ov = dict(outper=out_period(case), format="NETCDF4", instance=inst, particle=pvars)
     shared = dict(ncformat="f8", long_name="horizontal position")  # X and Y share ONE definition: yaml.safe_dump writes an anchor and an alias
